@@ -290,11 +290,23 @@ fn bomb_ramp(ctx: &mut Ctx, idx: u64, thorough: bool) -> Option<(String, Vec<Req
         }
         return Some((format!("B7 flat scale: {}", name), reqs));
     }
+    k -= hostile::N_FLAT as u64;
+    // B8: the content of a protected byte string is itself a byte string holding a byte string ...
+    // (bare, under tag 24, inside one-element arrays), from every carrier root
+    let n_b8 = 3 * hostile::N_ROOTS as u64;
+    if k < n_b8 {
+        let (form, root) = ((k / hostile::N_ROOTS as u64) as u8, (k % hostile::N_ROOTS as u64) as u8);
+        let reqs = depths(max_depth.min(1 << 15)).into_iter().map(|d| {
+            let (ty, b) = hostile::carry_header(root, &hostile::b8_wrapped(d, form));
+            Req::Typed(ty, false, b)
+        }).collect();
+        return Some((format!("B8 header wrapped in nested byte strings (form {}, root {})", form, root), reqs));
+    }
     let _ = ctx;
     None
 }
 
-const N_BOMB_RAMPS: u64 = 6 * hostile::N_ROOTS as u64 + 8 + 3 + 8 + 4 + hostile::N_FLAT as u64;
+const N_BOMB_RAMPS: u64 = 6 * hostile::N_ROOTS as u64 + 8 + 3 + 8 + 4 + hostile::N_FLAT as u64 + 3 * hostile::N_ROOTS as u64;
 
 impl Check for C01 {
     fn id(&self) -> &'static str {
@@ -399,7 +411,7 @@ impl Check for C01 {
         }
     }
     fn rule(&self) -> String {
-        format!("hostile inputs decoded in child processes on a {}-byte thread stack under a counting allocator (hard cap 64 MiB + 4000 bytes per input byte), panic hook and per-thread CPU clock: every byte string of length <= 2 (quick) / <= 3 (thorough); byte-mutated test vectors and generated messages; length lies at every head; generated valid / faulted values in wild encodings - each at all 31 byte-level entry points (25 untagged types + 6 tagged) followed, on every accepted value, by clone, ==, to_vec, to_tagged_vec, to_cbor_value, tbs / verify (every signer) / MAC / decrypt helpers under their documented preconditions, canonicalize, label comparison and drop; plus {} bomb ramps on doubling sizes (counter-signature nesting through protected headers in six forms (bare, [sig], [sig, sig], alternating with unprotected headers, long unprotected runs between protected hops) from 12 roots up to depth 2^14 (2^17 thorough), through unprotected headers, nested recipients, CBOR nesting of arrays/maps/tags/indefinite arrays to 10^4, products of these, and 21 flat-scale families (incl. maps whose labels arrive in descending / scattered order) up to 1 MB (8 MB thorough)). Oracle: the child never dies (signal, abort, stack overflow, allocation failure), nothing panics, peak live memory <= {} KiB + {} bytes per input byte, least-squares growth exponents of peak / cumulative bytes / allocator calls <= 1.35 and of thread CPU time <= 1.6 (measured twice), no watchdog expiry (retried alone with a doubled budget). Non-trivial = distinct hostile inputs / ramps.", stack_bytes(), N_BOMB_RAMPS, MEM_B >> 10, MEM_A)
+        format!("hostile inputs decoded in child processes on a {}-byte thread stack under a counting allocator (hard cap 64 MiB + 4000 bytes per input byte), panic hook and per-thread CPU clock: every byte string of length <= 2 (quick) / <= 3 (thorough); byte-mutated test vectors and generated messages; length lies at every head; generated valid / faulted values in wild encodings - each at all 31 byte-level entry points (25 untagged types + 6 tagged) followed, on every accepted value, by clone, ==, to_vec, to_tagged_vec, to_cbor_value, tbs / verify (every signer) / MAC / decrypt helpers under their documented preconditions, canonicalize, label comparison and drop; plus {} bomb ramps on doubling sizes (counter-signature nesting through protected headers in six forms (bare, [sig], [sig, sig], alternating with unprotected headers, long unprotected runs between protected hops) from 12 roots up to depth 2^14 (2^17 thorough), through unprotected headers, nested recipients, CBOR nesting of arrays/maps/tags/indefinite arrays to 10^4, products of these, 21 flat-scale families (incl. maps whose labels arrive in descending / scattered order) up to 1 MB (8 MB thorough), and header maps wrapped in up to 2^14 nested byte strings (bare, under tag 24, in one-element arrays) from 12 roots). Oracle: the child never dies (signal, abort, stack overflow, allocation failure), nothing panics, peak live memory <= {} KiB + {} bytes per input byte, least-squares growth exponents of peak / cumulative bytes / allocator calls <= 1.35 and of thread CPU time <= 1.6 (measured twice), no watchdog expiry (retried alone with a doubled budget). Non-trivial = distinct hostile inputs / ramps.", stack_bytes(), N_BOMB_RAMPS, MEM_B >> 10, MEM_A)
     }
     fn assumptions(&self) -> Vec<String> {
         vec![
